@@ -57,6 +57,10 @@ theorem frame_runNAct (rules : List Rule) (tx : Tx) (a : NAct) : Frame tx (runNA
   | ctlRemoveByRange lo hi => exact ⟨rfl, rfl, rfl, rfl, rfl, rfl, ⟨[], by simp [runNAct]⟩, ⟨[(lo, hi)], rfl⟩, ⟨[], by simp [runNAct]⟩, ⟨[], by simp [runNAct]⟩⟩
   | ctlRemoveByTag tag => exact ⟨rfl, rfl, rfl, rfl, rfl, rfl, ⟨_, rfl⟩, ⟨[], by simp [runNAct]⟩, ⟨[], by simp [runNAct]⟩, ⟨[], by simp [runNAct]⟩⟩
   | ctlRemoveTargetById lo hi v key => exact ⟨rfl, rfl, rfl, rfl, rfl, rfl, ⟨[], by simp [runNAct]⟩, ⟨[], by simp [runNAct]⟩, ⟨_, rfl⟩, ⟨[], by simp [runNAct]⟩⟩
+  | ctlAuditEngine m => exact Frame.of_eq rfl rfl rfl rfl rfl rfl rfl rfl rfl rfl
+  | ctlAuditLogParts md =>
+    simp only [runNAct]
+    split <;> exact Frame.of_eq rfl rfl rfl rfl rfl rfl rfl rfl rfl rfl
   | nop => exact Frame.refl tx
 
 theorem frame_runNActs (rules : List Rule) (tx : Tx) (as : List NAct) : Frame tx (runNActs rules tx as) := by
@@ -186,6 +190,9 @@ theorem quiet_runNAct (rules : List Rule) (tx : Tx) (a : NAct) : Quiet tx (runNA
   cases a with
   | setvar k op => exact quiet_setvarEval tx _ op
   | nop => exact Quiet.refl tx
+  | ctlAuditLogParts md =>
+    simp only [runNAct]
+    split <;> exact ⟨rfl, rfl, rfl, rfl, rfl, rfl, rfl, rfl, rfl⟩
   | _ => exact ⟨rfl, rfl, rfl, rfl, rfl, rfl, rfl, rfl, rfl⟩
 
 theorem quiet_runNActs (rules : List Rule) (tx : Tx) (as : List NAct) : Quiet tx (runNActs rules tx as) := by
